@@ -297,10 +297,10 @@ bool RadioTapParser::advance_to_next_namespace() {
     const uint32_t initial_index = namespace_index_;
     const RadioTapFlags* flags = get_flags_ptr();
     while (flags->ext == 1) {
-        if (is_field_set(29, flags)) {
+        if (is_field_set(1 << 29, flags)) {
             current_namespace_ = RADIOTAP_NS;
         }
-        else if (is_field_set(30, flags)) {
+        else if (is_field_set(1 << 30, flags)) {
             current_namespace_ = VENDOR_NS;
         }
         else {
